@@ -29,14 +29,14 @@ def run(chk):
         chk.mc('MC_CopyLoad', 'MC_CopyLoad_q5.cfg', timeout=5000)     # build-only operands, one level deeper
     # two managers, every receiver order: model-checked, then its paths replayed into two real
     # managers through real pickle / JSON files, tables compared after every action
-    sh_graph = common.stage_copyload_graph(chk, limit=2500 if q else 14000)
+    sh_graph = common.stage_copyload_graph(chk, limit=chk.th(2500, 14000))
     tasks = []
     tid = 11000000
     pairs3 = [(a, b) for a in ORDERS3 for b in ORDERS3]
     for a, b in pairs3:
         tasks.append(dict(n=3, src_order=a, dst_order=b, mode='all'))
     rng_pairs = [(ORDERS4[(7 * i + chk.seed) % 24], ORDERS4[(11 * i + 5) % 24])
-                 for i in range(12 if q else 2304)]
+                 for i in range(chk.th(12, 2304))]
     for a, b in rng_pairs:
         tasks.append(dict(n=4, src_order=a, dst_order=b, mode='sample'))
     for t in tasks:
